@@ -448,12 +448,40 @@ class Fn:
             return f"(← pySlice {self.V(e.value)} {bound(s.lower)} {bound(s.upper)})"
         return f"(← pyGetItem {self.V(e.value)} {self.V(s)})"
 
-    def class_names(self, e: ast.expr) -> list[str]:
+    def class_names(self, e: ast.expr, depth: int = 0) -> list[str]:
         if isinstance(e, ast.Name):
+            alias = self.module_alias(e.id)
+            if alias is not None:
+                # a module-level name bound (once) to a class or a tuple of classes — a hoisted `(str, HTML)` — is that tuple;
+                # bound to anything else it is not a class, and reading it as one would mistranslate the test
+                if depth >= 3:
+                    raise Untranslatable("isinstance against a deeply aliased class tuple")
+                return self.class_names(alias, depth + 1)
             return [e.id]
         if isinstance(e, ast.Tuple) and all(isinstance(x, ast.Name) for x in e.elts):
-            return [x.id for x in e.elts]
+            out = []
+            for x in e.elts:
+                out += self.class_names(x, depth)
+            return out
         raise Untranslatable("isinstance against a non-literal class tuple")
+
+    def module_alias(self, n: str):
+        """the value expression of a module-level assignment `n = …` (None when `n` is not assigned at module level, e.g. a
+        class, an import, a builtin); a name assigned more than once, or rebound elsewhere, is untranslatable"""
+        mod = getattr(self, "module", None)
+        if mod is None:
+            return None
+        vals = []
+        for st in mod.body:
+            if isinstance(st, ast.Assign) and len(st.targets) == 1 and isinstance(st.targets[0], ast.Name) and st.targets[0].id == n:
+                vals.append(st.value)
+            elif isinstance(st, ast.AnnAssign) and isinstance(st.target, ast.Name) and st.target.id == n and st.value is not None:
+                vals.append(st.value)
+        if not vals:
+            return None
+        if len(vals) > 1 or any(isinstance(x, ast.Global) and n in x.names for x in ast.walk(mod)):
+            raise Untranslatable(f"isinstance against {n}, which is rebound")
+        return vals[0]
 
     def call_known(self, info: "FnInfo", args: list[ast.expr], kws: list[ast.keyword], recv: str | None = None) -> str:
         """a call to another translated function: arguments matched to parameters by position / keyword / default"""
